@@ -438,7 +438,7 @@ class Unit:
             roots = list(spec.uses)
             direct = set(spec.uses)
         else:
-            roots = [target]
+            roots = [target] + list(spec.extra.get("harness_calls", ()))   # functions a hand-written harness calls besides the target
             direct = None
         stop = set(n for n in contract_fns if n not in spec.inline and n != target)
         order = self.closure(roots, stop, follow_roots=not is_lemma)
